@@ -50,6 +50,9 @@ class Rule:
         self.obs.append(Ob(self.rid, key, False, what, where, detail))
 
     def add(self, key, ok, what="", where="", detail=None):
+        if not ok and "Unknown(" in str(what):
+            # a value the evaluator could not determine reached the comparison: that is "not analysable", not a verdict on the code
+            raise AnalysisError(f"rule {self.rid} {key}: an undetermined value reached the comparison ({str(what)[:160]})")
         self.obs.append(Ob(self.rid, key, ok, what, where, detail))
 
 
